@@ -1,4 +1,5 @@
 import Props.C13
+import Lemmas.Rerun
 /-!
 # C15 — concurrency never exceeds the configured bound; serial means one at a time
 
@@ -37,6 +38,34 @@ theorem concurrency_bound (c : Cfg) (hc : Scheduled c) (s : Sched) (hr : Reachab
 theorem semAcq_requires_free (c : Cfg) (s s' : Sched) (v : Nat) (hs : step? c s (.semAcq v) = some s') :
     holders c s < c.maxParallel := by
   simp [step?] at hs; exact hs.2.1.2
+
+/-! ## a later `Run` of the same graph -/
+
+theorem hinv_rerun (c : Cfg) (s : Sched) : HInv c (rerun s) := by
+  constructor
+  · have : (c.g.ids.filter fun v => ((rerun s).get v).sem) = [] := by
+      rw [List.filter_eq_nil_iff]; intro a _; simp [rerun, Sched.get]
+    simp [holders, this]
+  · intro v h; simp [rerun, Sched.get] at h
+
+theorem running_le_holders (c : Cfg) (s : Sched) (h : HInv c s) : (running c s).length ≤ holders c s := by
+  unfold running holders
+  rw [← List.countP_eq_length_filter, ← List.countP_eq_length_filter]
+  apply List.countP_mono_left
+  intro a _ ha
+  cases hfl : (s.get a).fl with
+  | running k => exact h.held a (Or.inr (Or.inr ⟨k, hfl⟩))
+  | _ => simp [hfl] at ha
+
+/-- **The bound holds in every later run, under the limit in force then.**  Whatever the earlier run
+left behind (`s` is arbitrary), whatever limit `SetMaxParallel` set in between and whatever tasks were
+added (`c` is the configuration of the later run: the semaphore is made anew from `maxParallel` by every
+`Run` - the regenerated fact `semaphoreCap`), every state the later run can reach has at most
+`c.maxParallel` task functions executing. -/
+theorem second_run_concurrency_bound (c : Cfg) (hn : c.g.ids.Nodup) (s s' : Sched) (evs : List Event) (i : Nat)
+    (ha : accept c (rerun s) evs i = .ok s') : (running c s').length ≤ c.maxParallel := by
+  have h := hinv_accept c hn evs (rerun s) s' i (hinv_rerun c s) ha
+  exact Nat.le_trans (running_le_holders c s' h) h.bound
 
 /-! ## serial mode -/
 
